@@ -221,3 +221,51 @@ def rule_tc_null_first(cx, tier):
                       f"(type-name handling): for some hint names `T?` no longer admits null", fn.file, c.line))
     r.sample({"fn": fn.qual, "allow_null_test_block": first, "dominating_name_handling": [c.short for c in offenders]})
     return r
+
+
+# ---------------------------------------------------------------------------------------------
+# R-TC-HINT-SIBLING (C16): a binding routine that checks the hint of `x: T` also checks the hint of `_: T`
+
+def rule_tc_hint_sibling(cx, tier):
+    from ..mir import rv_places, op_place
+    r = RuleResult("R-TC-HINT-SIBLING",
+                   "`Node::Id(id, hint)` and `Node::Ignored(name, hint)` carry the same optional type hint; every "
+                   "koto_bytecode function that reads the hint of an `Id` (to assert / check it) reads the hint of an "
+                   "`Ignored` as well -- a routine that handles only one of the two silently drops the check for `_: T` "
+                   "(sibling evidence: all other binding routines read both)")
+    subjects = 0
+    for fn in cx.F.fns.values():
+        if fn.crate.uname != "koto_bytecode" or fn.derived:
+            continue
+        reads = {}
+        for b in fn.blocks:
+            if b.cleanup:
+                continue
+            pls = []
+            for st in b.stmts:
+                if st[0] == "a":
+                    pls += rv_places(st[2])
+            c = fn.call_at(b.idx)
+            if c is not None:
+                pls += [op_place(a) for a in c.args if op_place(a) is not None]
+            for pl in pls:
+                proj = pl[1]
+                for i, p in enumerate(proj):
+                    if isinstance(p, list) and p[0] == "v" and p[1] in ("Id", "Ignored"):
+                        nxt = proj[i + 1] if i + 1 < len(proj) else None
+                        if isinstance(nxt, list) and nxt[0] == "f":
+                            reads.setdefault(p[1], set()).add(nxt[1])
+        if 1 not in reads.get("Id", ()):
+            continue
+        subjects += 1
+        r.instances += 1
+        r.nontrivial += 1
+        ok = 1 in reads.get("Ignored", ())
+        r.sample({"fn": fn.qual.rsplit("::", 1)[-1], "reads_hint_of_ignored": ok})
+        if not ok:
+            r.add(Finding("R-TC-HINT-SIBLING", fn.qual, "ignored-hint-never-read",
+                          "this routine reads the type hint of `Node::Id` but never that of `Node::Ignored`: a typed "
+                          "ignored binding (`_: T`, `key as _: T`) is accepted whatever the value's type", fn.file, fn.line))
+    r.floor("routines that read the type hint of Node::Id", subjects, 8)
+    r.analysed = {"routines": subjects}
+    return r
